@@ -94,7 +94,7 @@ Print Assumptions C18_offered_dash_accepted.
 
 (* ---- added by bin/mkprops (batch 2) ---- *)
 From GoFlags Require Import Base.Str Base.Utf8 Golib.Strings Golib.Strconv Model.Types Model.Tag Model.Scan Model.Lookup Model.Convert Model.State Model.Closest Model.Help Model.Parse Model.Ini Model.Complete.
-From GoFlags Require Import Proofs.ContextSpec.
+From GoFlags Require Import Proofs.ContextSpec Proofs.CompleteSafe.
 
 (* after a valid prefix of command words the completion walk and the parser are in the same context: same command path, same lookup tables, same pending positionals *)
 Theorem C18_same_context_after_command_words :
@@ -104,8 +104,8 @@ Theorem C18_same_context_after_command_words :
          (Datatypes.length ws <= fc)%nat ->
          (Datatypes.length ws < fp)%nat ->
          exists (sp : pst) (r' : rt),
-           comp_walk cfg root fc (ws ++ [lastw]) (cs_fill cfg root []) None =
-           (cs_fill cfg root idx, None, [lastw]) /\
+           comp_walk cfg root fc (ws ++ [lastw]) (cs_fill cfg root [] false) None =
+           (cs_fill cfg root idx false, None, [lastw], false) /\
            run_loop cfg orc root help_text fp (initial_pst cfg root ws) r = Ok (sp, r') /\
            ps_cmd sp = idx /\
            ps_lk sp = make_lookup (pc_nsdelim cfg) root idx /\
@@ -117,8 +117,8 @@ Theorem C18_same_context_after_command_words :
            rt_fl r' = rt_fl r /\
            rt_logs r' = rt_logs r /\
            rt_active r' = rev (entries [] idx) ++ rt_active r /\
-           cs_cmd (cs_fill cfg root idx) = ps_cmd sp /\
-           cs_lk (cs_fill cfg root idx) = ps_lk sp /\ cs_pos (cs_fill cfg root idx) = ps_pos sp.
+           cs_cmd (cs_fill cfg root idx false) = ps_cmd sp /\
+           cs_lk (cs_fill cfg root idx false) = ps_lk sp /\ cs_pos (cs_fill cfg root idx false) = ps_pos sp.
 Proof. exact @C18_context_commands_only. Qed.
 Print Assumptions C18_same_context_after_command_words.
 
@@ -130,8 +130,8 @@ Theorem C18_same_context_after_words_and_flags :
          (Datatypes.length ws <= fc)%nat ->
          (Datatypes.length ws < fp)%nat ->
          exists sp : pst,
-           comp_walk cfg root fc (ws ++ [lastw]) (cs_fill cfg root []) None =
-           (cs_fill cfg root path', None, [lastw]) /\
+           comp_walk cfg root fc (ws ++ [lastw]) (cs_fill cfg root [] false) None =
+           (cs_fill cfg root path' false, None, [lastw], false) /\
            run_loop cfg orc root help_text fp (initial_pst cfg root ws) r = Ok (sp, r') /\
            ps_cmd sp = path' /\
            ps_lk sp = make_lookup (pc_nsdelim cfg) root path' /\
@@ -139,8 +139,8 @@ Theorem C18_same_context_after_words_and_flags :
            ps_ret sp = [] /\
            ps_err sp = None /\
            ps_args sp = [] /\
-           cs_cmd (cs_fill cfg root path') = ps_cmd sp /\
-           cs_lk (cs_fill cfg root path') = ps_lk sp /\ cs_pos (cs_fill cfg root path') = ps_pos sp.
+           cs_cmd (cs_fill cfg root path' false) = ps_cmd sp /\
+           cs_lk (cs_fill cfg root path' false) = ps_lk sp /\ cs_pos (cs_fill cfg root path' false) = ps_pos sp.
 Proof. exact @C18_context_with_flags. Qed.
 Print Assumptions C18_same_context_after_words_and_flags.
 
@@ -149,12 +149,12 @@ Theorem C18_same_context_real_fuel :
            (ws : list str) (path' : list nat) (lastw : str) (r r' : rt),
          ctx_run cfg orc root help_text [] r ws path' r' ->
          exists sp : pst,
-           comp_walk cfg root (S (Datatypes.length (ws ++ [lastw]))) (ws ++ [lastw]) (cs_fill cfg root []) None =
-           (cs_fill cfg root path', None, [lastw]) /\
+           comp_walk cfg root (S (Datatypes.length (ws ++ [lastw]))) (ws ++ [lastw])
+             (cs_fill cfg root [] false) None = (cs_fill cfg root path' false, None, [lastw], false) /\
            run_loop cfg orc root help_text (S (Datatypes.length ws)) (initial_pst cfg root ws) r = Ok (sp, r') /\
-           cs_cmd (cs_fill cfg root path') = ps_cmd sp /\
-           cs_lk (cs_fill cfg root path') = ps_lk sp /\
-           cs_pos (cs_fill cfg root path') = ps_pos sp /\ ps_ret sp = [] /\ ps_err sp = None.
+           cs_cmd (cs_fill cfg root path' false) = ps_cmd sp /\
+           cs_lk (cs_fill cfg root path' false) = ps_lk sp /\
+           cs_pos (cs_fill cfg root path' false) = ps_pos sp /\ ps_ret sp = [] /\ ps_err sp = None.
 Proof. exact @C18_context_with_flags_api_fuel. Qed.
 Print Assumptions C18_same_context_real_fuel.
 
@@ -195,7 +195,7 @@ Theorem C18_separate_argument_is_skipped :
          (forall (x : str) (rest' : list str),
           comp_walk cfg root (S f) ((s2l "--" ++ n) :: v :: x :: rest') sc opt =
           comp_walk cfg root f (x :: rest') sc opt) /\
-         comp_walk cfg root (S f) [s2l "--" ++ n; v] sc opt = (sc, Some oc, [v]) /\
+         comp_walk cfg root (S f) [s2l "--" ++ n; v] sc opt = (sc, Some oc, [v], false) /\
          (forall (sp : pst) (r r1 : rt) (rest' : list str) (v' : str),
           ps_lk sp = cs_lk sc ->
           ps_args sp = (s2l "--" ++ n) :: v :: rest' ->
@@ -211,4 +211,187 @@ Theorem C18_separate_argument_is_skipped :
             ps_lk sp' = ps_lk sp /\ ps_pos sp' = ps_pos sp /\ ps_ret sp' = ps_ret sp /\ ps_err sp' = ps_err sp).
 Proof. exact @C18_separate_argument_skipped. Qed.
 Print Assumptions C18_separate_argument_is_skipped.
+
+Theorem C18_complete_in_terms_of_the_walk :
+  forall (cfg : pconfig) (root : command) (args : list str) (s : cst) (opt : option octx)
+           (rest : list str) (terminated : bool),
+         walk_of cfg root args = (s, opt, rest, terminated) ->
+         complete cfg root args =
+         sort_by (fun it : str * str => fst it)
+           (complete_ret s opt terminated (last rest [])
+              (if negb terminated && negb (cs_ret s) then command_items root s (last rest []) else [])).
+Proof. exact @complete_by_walk. Qed.
+Print Assumptions C18_complete_in_terms_of_the_walk.
+
+(* after `--` (PassDoubleDash) or the first non-option word under PassAfterNonOption nothing but the completions of a pending positional is offered: no option names, no commands *)
+Theorem C18_only_positional_values_after_terminator :
+  forall (cfg : pconfig) (root : command) (args : list str) (s : cst) (opt : option octx)
+           (rest : list str),
+         walk_of cfg root args = (s, opt, rest, true) ->
+         opt = None /\
+         complete cfg root args =
+         sort_by (fun it : str * str => fst it)
+           match cs_pos s with
+           | [] => []
+           | p :: _ => complete_value (a_ty p) [] (last rest [])
+           end.
+Proof. exact @C18_nothing_but_values_after_terminator. Qed.
+Print Assumptions C18_only_positional_values_after_terminator.
+
+Theorem C18_terminated_by_double_dash_prefix :
+  forall (cfg : pconfig) (orc : oracles) (root : command) (help_text : rt -> str) 
+           (ws : list str) (path' : list nat) (ret' : bool) (r r' : rt) (more : list str) 
+           (lastw : str),
+         po_passdd (pc_opts cfg) = true ->
+         ctx_run_ret cfg orc root help_text [] false r ws path' ret' r' ->
+         walk_of cfg root (ws ++ s2l "--" :: more ++ [lastw]) =
+         (cs_with_pos (cs_fill cfg root path' ret') (skipn (Datatypes.length more) (pos_at root path')), None,
+          more ++ [lastw], true).
+Proof. exact @C18_terminated_by_double_dash. Qed.
+Print Assumptions C18_terminated_by_double_dash_prefix.
+
+Theorem C18_terminated_by_non_option_prefix :
+  forall (cfg : pconfig) (orc : oracles) (root : command) (help_text : rt -> str) 
+           (ws : list str) (path' : list nat) (ret' : bool) (r r' : rt) (a : str) (more : list str)
+           (lastw : str),
+         po_passafter (pc_opts cfg) = true ->
+         ctx_run_ret cfg orc root help_text [] false r ws path' ret' r' ->
+         po_passdd (pc_opts cfg) && str_eqb a (s2l "--") = false ->
+         argument_is_option a = false ->
+         find_last (lk_cmds (make_lookup (pc_nsdelim cfg) root path')) a = None ->
+         walk_of cfg root (ws ++ a :: more ++ [lastw]) =
+         (cs_with_pos (cs_fill cfg root path' ret')
+            (skipn (Datatypes.length (more ++ [lastw])) (pos_at root path')), None, 
+          more ++ [lastw], true).
+Proof. exact @C18_terminated_by_non_option. Qed.
+Print Assumptions C18_terminated_by_non_option_prefix.
+
+(* after a left over argument (stray word, ignored unknown option) no command is offered *)
+Theorem C18_no_commands_after_leftover_argument :
+  forall (cfg : pconfig) (root : command) (args : list str) (s : cst) (opt : option octx)
+           (rest : list str) (terminated : bool),
+         walk_of cfg root args = (s, opt, rest, terminated) ->
+         cs_ret s = true ->
+         complete cfg root args =
+         sort_by (fun it : str * str => fst it) (complete_ret s opt terminated (last rest []) []) /\
+         (opt = None -> starts_option (last rest []) = false -> cs_pos s = [] -> complete cfg root args = []).
+Proof. exact @C18_no_commands_after_leftover. Qed.
+Print Assumptions C18_no_commands_after_leftover_argument.
+
+Theorem C18_long_names_offered_iff_live :
+  forall (cfg : pconfig) (root : command) (args : list str) (s : cst) (rest : list str)
+           (terminated : bool) (prefix m : str),
+         walk_of cfg root args = (s, None, rest, terminated) ->
+         starts_option (last rest []) = true ->
+         strip_split (last rest []) = (prefix, true, m, None) ->
+         complete cfg root args =
+         sort_by (fun it : str * str => fst it)
+           (if terminated
+            then match cs_pos s with
+                 | [] => []
+                 | p :: _ => complete_value (a_ty p) [] (last rest [])
+                 end
+            else complete_option_names (cs_lk s) prefix m false).
+Proof. exact @C18_complete_long_names. Qed.
+Print Assumptions C18_long_names_offered_iff_live.
+
+Theorem C18_commands_offered_iff_live :
+  forall (cfg : pconfig) (root : command) (args : list str) (s : cst) (rest : list str)
+           (terminated : bool) (c : command),
+         walk_of cfg root args = (s, None, rest, terminated) ->
+         starts_option (last rest []) = false ->
+         cs_pos s = [] ->
+         cmd_at root (cs_cmd s) = Some c ->
+         complete cfg root args =
+         sort_by (fun it : str * str => fst it)
+           (if negb terminated && negb (cs_ret s) then complete_commands c (last rest []) else []).
+Proof. exact @C18_complete_commands. Qed.
+Print Assumptions C18_commands_offered_iff_live.
+
+(* the completion walk and the argument loop reach the same context and agree on whether an argument was left over, for prefixes with command words, accepted options, stray words and ignored unknown options *)
+Theorem C18_walk_and_parser_agree_with_leftovers :
+  forall (cfg : pconfig) (orc : oracles) (root : command) (help_text : rt -> str) 
+           (ws : list str) (path' : list nat) (ret' : bool) (lastw : str) (r r' : rt) 
+           (fc fp : nat),
+         ctx_run_ret cfg orc root help_text [] false r ws path' ret' r' ->
+         (Datatypes.length ws <= fc)%nat ->
+         (Datatypes.length ws < fp)%nat ->
+         exists (sc : cst) (sp : pst),
+           comp_walk cfg root fc (ws ++ [lastw]) (cs_fill cfg root [] false) None = (sc, None, [lastw], false) /\
+           run_loop cfg orc root help_text fp (initial_pst cfg root ws) r = Ok (sp, r') /\
+           cs_cmd sc = ps_cmd sp /\
+           cs_lk sc = ps_lk sp /\
+           cs_pos sc = ps_pos sp /\
+           cs_ret sc = nonempty (map (fun _ : str => 0) (ps_ret sp)) /\
+           sc = cs_fill cfg root path' ret' /\
+           ps_cmd sp = path' /\
+           ps_lk sp = make_lookup (pc_nsdelim cfg) root path' /\
+           ps_pos sp = pos_at root path' /\ ps_err sp = None /\ ps_args sp = [].
+Proof. exact @C18_walk_ret_agrees_with_parser. Qed.
+Print Assumptions C18_walk_and_parser_agree_with_leftovers.
+
+Theorem C18_walk_and_parser_agree_real_fuel :
+  forall (cfg : pconfig) (orc : oracles) (root : command) (help_text : rt -> str) 
+           (ws : list str) (path' : list nat) (ret' : bool) (lastw : str) (r r' : rt),
+         ctx_run_ret cfg orc root help_text [] false r ws path' ret' r' ->
+         exists sp : pst,
+           walk_of cfg root (ws ++ [lastw]) = (cs_fill cfg root path' ret', None, [lastw], false) /\
+           run_loop cfg orc root help_text (S (Datatypes.length ws)) (initial_pst cfg root ws) r = Ok (sp, r') /\
+           ps_cmd sp = path' /\
+           ps_lk sp = make_lookup (pc_nsdelim cfg) root path' /\
+           ps_pos sp = pos_at root path' /\
+           nonempty (map (fun _ : str => 0) (ps_ret sp)) = ret' /\ ps_err sp = None /\ ps_args sp = [].
+Proof. exact @C18_walk_ret_agrees_with_parser_api. Qed.
+Print Assumptions C18_walk_and_parser_agree_real_fuel.
+
+(* every offered command name is a visible sub-command of the current command and the parser, given that word at that position, enters it *)
+Theorem C18_offered_command_is_entered_by_the_parser :
+  forall (cfg : pconfig) (orc : oracles) (root : command) (help_text : rt -> str) 
+           (ws : list str) (path' : list nat) (lastw : str) (r r' : rt) (name desc : str),
+         ctx_run_ret cfg orc root help_text [] false r ws path' false r' ->
+         pos_at root path' = [] ->
+         starts_option lastw = false ->
+         In (name, desc) (complete cfg root (ws ++ [lastw])) ->
+         exists (cur sub : command) (i : nat) (sub' : command),
+           cmd_at root path' = Some cur /\
+           In sub (cmd_subs cur) /\
+           g_hidden (grp_info (cmd_group sub)) = false /\
+           name = c_name (cmd_info sub) /\
+           desc = g_short (grp_info (cmd_group sub)) /\
+           has_prefix name lastw = true /\
+           find_last (lk_cmds (make_lookup (pc_nsdelim cfg) root path')) name = Some i /\
+           nth_error (cmd_subs cur) i = Some sub' /\
+           (name = c_name (cmd_info sub') \/ In name (c_aliases (cmd_info sub'))) /\
+           (starts_option name = false ->
+            (forall (s : pst) (rr : rt) (rest : list str),
+             ps_args s = name :: rest ->
+             in_ctx_ret cfg root s path' false ->
+             step cfg orc root help_text s rr =
+             Ok
+               (Continue (fill_parse_state cfg root (ps_with_args s name rest) (path' ++ [i]))
+                  (set_active rr path' i))) /\
+            (exists sp : pst,
+               run_loop cfg orc root help_text (S (S (Datatypes.length ws)))
+                 (initial_pst cfg root (ws ++ [name])) r = Ok (sp, set_active r' path' i) /\
+               ps_cmd sp = path' ++ [i] /\
+               ps_lk sp = make_lookup (pc_nsdelim cfg) root (path' ++ [i]) /\
+               ps_ret sp = [] /\ ps_err sp = None /\ ps_args sp = [])).
+Proof. exact @C18_offered_command_is_entered. Qed.
+Print Assumptions C18_offered_command_is_entered_by_the_parser.
+
+Theorem C18_offered_command_is_entered_nonempty_word :
+  forall (cfg : pconfig) (orc : oracles) (root : command) (help_text : rt -> str) 
+           (ws : list str) (path' : list nat) (lastw : str) (r r' : rt) (name desc : str),
+         ctx_run_ret cfg orc root help_text [] false r ws path' false r' ->
+         pos_at root path' = [] ->
+         starts_option lastw = false ->
+         lastw <> [] ->
+         In (name, desc) (complete cfg root (ws ++ [lastw])) ->
+         exists (i : nat) (sp : pst),
+           find_last (lk_cmds (make_lookup (pc_nsdelim cfg) root path')) name = Some i /\
+           run_loop cfg orc root help_text (S (S (Datatypes.length ws))) (initial_pst cfg root (ws ++ [name]))
+             r = Ok (sp, set_active r' path' i) /\
+           ps_cmd sp = path' ++ [i] /\ ps_ret sp = [] /\ ps_err sp = None /\ ps_args sp = [].
+Proof. exact @C18_offered_command_is_entered_nonempty. Qed.
+Print Assumptions C18_offered_command_is_entered_nonempty_word.
 
